@@ -66,13 +66,21 @@ def ensure_extractor():
             raise Broken('extractor is not built and setup.sh failed: ' + (r.stderr or '')[-500:])
 
 
+_DBS = {}
+
+
 def build(tier):
     """returns (db, info) ; info = {'sets': {name: {'tus': n, 'failed': [...]}}, 'hash':...}"""
     ensure_extractor()
     os.makedirs(CACHE, exist_ok=True)
     key = tree_hash()
     info = {'hash': key, 'sets': {}, 'cached': True}
-    lock = open(os.path.join(CACHE, '.lock'), 'w')
+    if (key, tier) in _DBS:
+        dbs, files_n, sets = _DBS[(key, tier)]
+        info['sets'] = sets; info['tus_parsed'] = files_n
+        return dbs, info
+    # one lock per tree: concurrent checks of the same tree wait for one extraction, checks of different trees do not wait for each other
+    lock = open(os.path.join(CACHE, '.lock.' + key), 'w')
     fcntl.flock(lock, fcntl.LOCK_EX)
     try:
         files = {}
@@ -91,16 +99,35 @@ def build(tier):
             meta = json.load(open(done))
             info['sets'][name] = {'tus': meta['tus'], 'failed': [x['tu'] for x in meta['failed']], 'errors': [x['err'][-300:] for x in meta['failed']][:3]}
             files.setdefault(cfg, []).extend(sorted(glob.glob(os.path.join(d, '*.json'))))
-        # keep the cache small: drop all but the 3 most recent trees
-        trees = sorted((p for p in glob.glob(os.path.join(CACHE, '*')) if os.path.isdir(p)), key=os.path.getmtime)
-        os.utime(os.path.join(CACHE, key))
-        for old in trees[:-int(os.environ.get('COCLS_CACHE_KEEP', '3'))]:
-            if os.path.basename(old) != key:
-                shutil.rmtree(old, ignore_errors=True)
+        # keep the cache small: drop all but the 3 most recent trees (under the cache-wide lock; a tree whose own lock is held is in use)
+        glock = open(os.path.join(CACHE, '.lock'), 'w')
+        fcntl.flock(glock, fcntl.LOCK_EX)
+        try:
+            trees = sorted((p for p in glob.glob(os.path.join(CACHE, '*')) if os.path.isdir(p)), key=os.path.getmtime)
+            os.utime(os.path.join(CACHE, key))
+            for old in trees[:-int(os.environ.get('COCLS_CACHE_KEEP', '3'))]:
+                if os.path.basename(old) == key:
+                    continue
+                try:
+                    ol = open(os.path.join(CACHE, '.lock.' + os.path.basename(old)), 'w')
+                    fcntl.flock(ol, fcntl.LOCK_EX | fcntl.LOCK_NB)
+                except OSError:
+                    continue          # being extracted / read by another check right now
+                try:
+                    shutil.rmtree(old, ignore_errors=True)
+                    try:
+                        os.unlink(os.path.join(CACHE, '.lock.' + os.path.basename(old)))
+                    except OSError:
+                        pass
+                finally:
+                    fcntl.flock(ol, fcntl.LOCK_UN); ol.close()
+        finally:
+            fcntl.flock(glock, fcntl.LOCK_UN); glock.close()
+        if not files or not all(files.values()):
+            raise Broken('no translation unit could be analysed: ' + json.dumps(info['sets'])[:600])
+        dbs = {cfg: DB(fl) for cfg, fl in files.items()}         # read while the tree's lock is held (it cannot be evicted under us)
     finally:
         fcntl.flock(lock, fcntl.LOCK_UN); lock.close()
-    if not files or not all(files.values()):
-        raise Broken('no translation unit could be analysed: ' + json.dumps(info['sets'])[:600])
-    dbs = {cfg: DB(fl) for cfg, fl in files.items()}
     info['tus_parsed'] = sum(len(fl) for fl in files.values())
+    _DBS[(key, tier)] = (dbs, info['tus_parsed'], info['sets'])        # several checks in one process (engine/check.py --all) share the fact base
     return dbs, info
